@@ -35,6 +35,11 @@ CLAIMED = {
          "Every content of up to 5 rows over a small set of row lengths (empty rows anywhere), both sink kinds (zero-size symbol, MSINK menu), every browse configuration and every output size from 1 to the unpaginated length + 3 is walked forward to one page beyond the end and back to one page before the start; completeness and order of rows, static parts on every page, next/previous offered exactly where they lead to a page that renders, and errors past either end are checked on every walk.",
          "Trusted: the page parser of the harness (marker characters delimit the sink region). Rows are letters only. One open known finding (follow-up page that can never fit).",
          "DESIGN.md §4 C02"),
+ "C01": ("model_checking",
+         "bounded-exhaustive enumeration of histories x environment variants x every output size on the real engine; differential oracle against the unlimited render; sink pages walked as in C02",
+         "For each application, content variant and input history the pages are first rendered without a limit; then the same history is served under every output size from 1 to the longest page + 3 and each response must be an error or exactly the unlimited page within the size. Sink configurations are walked page by page under every size and each page is checked for size and well-formedness (no partial rows, menu lines complete).",
+         "Trusted: the unlimited render as the definition of the untruncated page (the property is about the limit, not about page content). Templates are literal text with placeholders.",
+         "DESIGN.md §4 C01"),
 }
 
 NOT_YET = {}
